@@ -102,7 +102,13 @@ func genTmpl(r *vk.RNG, allowFail, allowTyped bool) Tmpl {
 		}
 		return Tmpl{Text: f.text, Eval: f.eval, Fails: true}
 	}
-	switch r.Intn(30) {
+	switch r.Intn(32) {
+	// multi-line templates as an editor with CRLF line ends writes them: the line breaks are literal text of the template
+	case 30:
+		return Tmpl{Text: "{{ ." + l1 + " }}:\r\n{{ __line__ }}", Eval: ok(func(e *Ent) string { return tl(e, l1) + ":\r\n" + e.Line })}
+	case 31:
+		sep := vk.Pick(r, []string{"\r", "\r\n", "\n", "\t", "\r\r\n", " \r "})
+		return Tmpl{Text: "<{{ ." + l1 + " }}" + sep + "{{ ." + l2 + " }}>" + sep, Eval: ok(func(e *Ent) string { return "<" + tl(e, l1) + sep + tl(e, l2) + ">" + sep })}
 	// the root variable $ is the label set as well; variables carry values between actions
 	case 26:
 		return Tmpl{Text: "{{ $." + l1 + " }}", Eval: ok(func(e *Ent) string { return tl(e, l1) })}
